@@ -24,7 +24,7 @@ func checkC05(c *Ctx) {
 	c05Dispatch(c, p)
 	c05Base(c, p)
 	c05Splitter(c, p)
-	c05Lookup(c, p)
+	c05Lookup(c, p, "C05/R4")
 }
 
 func c05Dispatch(c *Ctx, p *Prog) {
@@ -454,8 +454,7 @@ func byteIndexOfAny(v ssa.Value) (ssa.Value, bool) {
 	return nil, false
 }
 
-func c05Lookup(c *Ctx, p *Prog) {
-	const R = "C05/R4"
+func c05Lookup(c *Ctx, p *Prog, R string) {
 	// the sub-name lookup: function in benchproc calling Name.Parts and bytes.HasPrefix with a []byte parameter
 	var fn *ssa.Function
 	for _, f := range p.Funcs("benchproc") {
